@@ -214,7 +214,14 @@ theorem demo_noGenerics : NoGenerics demoFacts := by
     | _ + 3 => simp [demoFacts] at h
 
 theorem demo_wellFormed : WellFormed demoFacts false := by
-  refine ⟨?_⟩
+  refine ⟨?_, ?_⟩
+  rotate_left
+  · intro g ms h
+    match g with
+    | 0 => simp [demoFacts] at h
+    | 1 => simp [demoFacts] at h
+    | 2 => simp [demoFacts] at h
+    | _ + 3 => simp [demoFacts] at h
   intro g und ms tps ou h
   match g with
   | 0 =>
@@ -269,6 +276,17 @@ theorem walk_files_under_the_right_name (bt : List Builtin) (F : Facts) (v2 : Bo
   walk_sn bt F v2 hbt fuel u g none u' o hi hs (fun _ h => by cases h) hw
 
 
+/-- **interface_methods_faithful**: an object filled from an interface node with methods is an Interface whose method table is
+that node's complete method set (embedded interfaces' methods included – go/types' `NumMethods`/`Method`): every method
+is there, bound to the object registered under the method's printed name, and there is no other entry -/
+theorem interface_methods_faithful {bt : List Builtin} {F : Facts} {v2 : Bool} {u : U} (h : Full bt F v2 u) (o : Nat) (ob : Obj) (g : Nat)
+    (ms : List GMethod) (hob : u.objs[o]? = some ob) (hs : ob.src = some g) (hn : F.node g = .iface ms) (hne : ms ≠ []) :
+    ob.kind = .iface ∧ MethodsMatch F v2 u ob.methods ms := by
+  have := described h o ob g hob hs
+  unfold Desc at this
+  simp only [hn] at this
+  exact ⟨this.1, this.2 hne⟩
+
 /-! ### declarations and package records (Lemmas/WalkSide.lean) -/
 open Gengo.WalkSide
 
@@ -315,7 +333,15 @@ def genericFacts : Facts where
 example : ((walk [] genericFacts true 8 {} 0 none).map (fun r => AL.lookup (⟨['p'], ['G', '[', 'T', ']']⟩ : Name) r.1.types)) = some (some 1) := by decide
 
 theorem generic_wellFormed : WellFormed genericFacts true := by
-  refine ⟨?_⟩
+  refine ⟨?_, ?_⟩
+  rotate_left
+  · intro g ms h
+    match g with
+    | 0 => simp [genericFacts] at h
+    | 1 => simp [genericFacts] at h
+    | 2 => simp [genericFacts] at h; subst h; exact ⟨List.nodup_nil, fun m hm => by cases hm⟩
+    | 3 => simp [genericFacts] at h
+    | _ + 4 => simp [genericFacts] at h
   intro g und ms tps ou h
   match g with
   | 0 =>
